@@ -551,16 +551,13 @@ class GlyphSet(_UFOBaseIO):
         if validate is None:
             validate = self._validateWrite
         fileName = self.contents.get(glyphName)
-        if fileName is None:
+        isNewGlyph = fileName is None
+        if isNewGlyph:
             if self._existingFileNames is None:
                 self._existingFileNames = {
                     fileName.lower() for fileName in self.contents.values()
                 }
             fileName = self.glyphNameToFileName(glyphName, self._existingFileNames)
-            self.contents[glyphName] = fileName
-            self._existingFileNames.add(fileName.lower())
-            if self._reverseContents is not None:
-                self._reverseContents[fileName.lower()] = glyphName
         data = _writeGlyphToBytes(
             glyphName,
             glyphObject,
@@ -568,13 +565,18 @@ class GlyphSet(_UFOBaseIO):
             formatVersion=formatVersion,
             validate=validate,
         )
-        if (
+        if not (
             self._havePreviousFile
             and self.fs.exists(fileName)
             and data == self.fs.readbytes(fileName)
         ):
-            return
-        self.fs.writebytes(fileName, data)
+            self.fs.writebytes(fileName, data)
+        if isNewGlyph:
+            # only now: a write that failed must not leave the glyph listed
+            self.contents[glyphName] = fileName
+            self._existingFileNames.add(fileName.lower())
+            if self._reverseContents is not None:
+                self._reverseContents[fileName.lower()] = glyphName
 
     def deleteGlyph(self, glyphName: str) -> None:
         """Permanently delete the glyph from the glyph set on disk. Will
